@@ -949,7 +949,9 @@ pub fn c13(args: &Args) -> i32 {
             level = nx;
         }
     }
-    let cases: Vec<(Vec<W13>, usize, usize)> = hist.iter().flat_map(|(h, k)| buffers.iter().map(move |b| (h.clone(), *k, *b))).collect();
+    // with buffer_size 1 every write is flushed at once, so the "populated, WAL only" start state exists only
+    // with the large buffer; the flushed start state is explored with both
+    let cases: Vec<(Vec<W13>, usize, usize)> = hist.iter().flat_map(|(h, k)| buffers.iter().filter(move |b| !(*k == 2 && **b != 10000)).map(move |b| (h.clone(), *k, *b))).collect();
     run.put("histories", json!(hist.len()));
     run.put("cases", json!(cases.len()));
     let totals = std::sync::Mutex::new(CrashStats::default());
